@@ -197,6 +197,18 @@ fn unaddressed_variants(d: &MObj, top: &BTreeSet<String>, all: &BTreeSet<String>
             }
         }
     }
+    // the rule's own names in another case are different keys (also in the ignore_case build, which
+    // folds the case of string *values* only)
+    for name in all.iter() {
+        let up = name.to_ascii_uppercase();
+        if up != *name && !all.contains(&up) && d.getm(&up).is_none() {
+            for v in [s("a"), s("x")] {
+                let mut x = d.clone();
+                x.set(&up, v);
+                out.push(x);
+            }
+        }
+    }
     for (k, v) in [
         ("zz", s("a")),
         ("zz", MVal::Int(1)),
@@ -217,6 +229,12 @@ fn unaddressed_variants(d: &MObj, top: &BTreeSet<String>, all: &BTreeSet<String>
         if let MVal::Obj(o) = v {
             o.set("zz", s("a"));
             o.set("\u{0}", s("a"));
+            for name in all.iter() {
+                let up = name.to_ascii_uppercase();
+                if up != *name && !all.contains(&up) && o.getm(&up).is_none() {
+                    o.set(&up, s("a"));
+                }
+            }
             changed = true;
         }
     }
@@ -338,6 +356,12 @@ fn check_spec(spec: &RuleSpec, level: u8, doc_cap: usize) -> Stats {
 pub fn run(tier: Tier) -> i32 {
     let mut rep = Report::new("C16", tier);
     let th = tier.thorough();
+    // the same exploration (a strided slice) on the crate built with `sync` (own copies of find /
+    // adapters) and with `ignore_case` (keys stay case-sensitive there), started now, collected below
+    let sy_exe = "/verif/harness/target-sy/release/tv";
+    let ic_exe = "/verif/harness/target-ic/release/tv";
+    let sy_child = crate::report::start_variant("C16", tier, "sync", sy_exe);
+    let ic_child = crate::report::start_variant("C16", tier, "ignore_case", ic_exe);
     let level = if th { 1 } else { 0 };
     let specs: Vec<RuleSpec> = if th {
         let mut v = gen::family_single(1);
@@ -361,6 +385,13 @@ pub fn run(tier: Tier) -> i32 {
             specs.push(RuleSpec::one(Body::Seq(vec![vec![e(k, st("a")), e("g", st("x"))], vec![e(k, st("b"))], vec![e("g", int(1))]])));
         }
     }
+    // the sync and ignore_case builds run a strided slice of the universe (plus all special-key rules)
+    if crate::report::variant().is_some() {
+        let n = specs.len();
+        let tail: Vec<RuleSpec> = specs.split_off(n - 40);
+        specs = specs.into_iter().step_by(8).collect();
+        specs.extend(tail);
+    }
     let doc_cap = if th { 300 } else { 100 };
     let parts: Vec<Stats> = specs.par_iter().map(|sp| check_spec(sp, 1, doc_cap)).collect();
     for p in parts {
@@ -370,11 +401,11 @@ pub fn run(tier: Tier) -> i32 {
     rep.stats.sample(json!({"rule":"A: [{f: 'a*', g: x}, {f: '*b'}] (becomes a matrix)","recorded":["f","g"],"never":["\\u0000","\\u0001"]}));
     rep.rule = "every loadable rule of the shared universe x every switch set (distinct optimised trees, all hash orders) x the document product, evaluated on a recording document (every get() on the document and on every nested object is logged). Oracle: (1) each key asked at the top level is the first segment of a key written at the top level of an identifier or a cast field of the condition; each key asked on a nested object is a segment written somewhere in the rule; and every key string presented to a recording Document::find is, verbatim, a key written at the top level of an identifier or a field written in the condition; no key containing a character below U+0020 (the matrix's synthetic column keys) or the empty key is ever asked; (2) for every document, adding an unaddressed field (zz, ff, the synthetic names U+0000 / U+0001, the empty name; at top level and inside nested objects) leaves the verdict unchanged. non-trivial = the rule asked for at least one key".into();
     rep.assumptions = vec!["key attribution is by segment name, not by exact nesting path".into()];
-    // the same exploration on the crate built with its `sync` feature (own copies of find / adapters)
-    let vrc = crate::report::run_variant(&mut rep, "sync", "/verif/harness/target-sy/release/tv");
-    if vrc >= 2 {
+    let vrc = crate::report::finish_variant(&mut rep, "sync", sy_exe, sy_child);
+    let irc = crate::report::finish_variant(&mut rep, "ignore_case", ic_exe, ic_child);
+    if vrc >= 2 || irc >= 2 {
         return 2;
     }
     let rc = rep.finish();
-    rc.max(vrc)
+    rc.max(vrc).max(irc)
 }
